@@ -68,7 +68,40 @@ def determinism(n, workers_a, workers_b, fresh_n):
         if fresh_n:
             print("  fresh interpreters: %d seeds, %d mismatches" % (fresh_n, fm))
         bad += fm
+    bad += determinism_threads(max(60, n // 5), workers_a, workers_b)
     return 0 if bad == 0 else 2
+
+
+def determinism_threads(n, workers_a, workers_b):
+    """Caller-thread histories: the same seeded programs in two sets of zygotes (other PYTHONHASHSEED, other worker count) --
+    status, event log (pre-emption points passed, every baton switch, every result digest, every user draw) must agree."""
+    import random
+
+    from . import threads as T
+    t = time.time()
+    progs = []
+    for i in range(n):
+        rs = P.derive_seed(987654321, "C17-threads", "quick", i)
+        progs.append(T.gen(random.Random(rs), rs))
+    progs += [p["program"] for p in T.line_sweep_programs()[:4]]
+
+    def digests(workers, hs):
+        out = {}
+        with Pool(workers, (hs, )) as pool:
+            pool.run(({"id": i, "kind": "program", "program": p, "deadline": 600} for i, p in enumerate(progs)),
+                     lambda j, r: out.__setitem__(j["id"], (r.get("status"), r.get("events_digest"), r.get("n_events"))))
+        return out
+
+    a, b = digests(workers_a, "1"), digests(workers_b, "77")
+    mism = [i for i in range(len(progs)) if a.get(i) != b.get(i)]
+    st = {}
+    for v in a.values():
+        st[v[0]] = st.get(v[0], 0) + 1
+    print("determinism C17 caller threads: %d threaded histories x 2 (workers %d/%d, PYTHONHASHSEED 1/77): %d mismatches; "
+          "statuses %s; %.0fs" % (len(progs), workers_a, workers_b, len(mism), st, time.time() - t))
+    for i in mism[:5]:
+        print("  MISMATCH threads program #%d: %s vs %s" % (i, a.get(i), b.get(i)))
+    return len(mism) + (1 if any(k != "ok" for k in st) else 0)
 
 
 def scratch_copy():
